@@ -15,6 +15,7 @@ import os
 from lib.framework import Check, enc, dec, time_limit
 from gen import c03_productions, relib
 from harness import c03_content as C
+from harness import c03_sheets as S
 
 PATTERN_NAMES = ['STRING', 'URI', 'IDENT', 'COMMENT', 'unicodesub', 'cleanstring', 'simpleescapes', 'forbidden_in_uri']
 
@@ -73,6 +74,14 @@ class C03(Check):
             self.corr_patterns(ctx, cssutils, rng)
             self.corr_functions(ctx, cssutils, rng)
             self.corr_safe(ctx, cssutils, rng)
+            S.init(cssutils)
+            self.parser = cssutils.CSSParser(fetcher=lambda url: (None, ''))
+            from cssutils import tokenize2
+            self.tk = tokenize2.Tokenizer()
+            self.oracle_corpus(ctx, cssutils)
+            self.slots(ctx, cssutils, rng)
+            self.oracle_composite(ctx, cssutils, rng)
+            self.oracle_shipped(ctx, cssutils)
         finally:
             cssutils.ser.prefs.useDefaults()
 
@@ -268,9 +277,387 @@ class C03(Check):
                     ctx.disagree('Safe (%s) is exactly "written value reads back" on the implementation' % which,
                                  {'stored': v, 'written': w}, {'reread': back, 'ok': ok}, mir)
 
+    # == sheet level ==================================================================================
+    CLAUSE_FIX = 'serialising the reparsed serialisation gives byte-identical text'
+    CLAUSE_DOM = 'parsing the serialisation gives an equivalent DOM (rules, selectors, declarations, values, ' \
+                 'priorities, media, import targets, comments)'
+
+    def roundtrip(self, cssutils, sheet):
+        """(t1, t2, p1, p2) of a DOM; @variables are kept as rules (resolveVariables=False) when the sheet has any"""
+        try:
+            hasvars = any(r.type == S.RULE.VARIABLES_RULE for r in sheet.cssRules)
+            cssutils.ser.prefs.resolveVariables = not hasvars
+            with time_limit(30):
+                t1 = sheet.cssText
+                s2 = self.parser.parseString(t1)
+                t2 = s2.cssText
+                p1 = S.project(cssutils, sheet)
+                p2 = S.project(cssutils, s2)
+            return t1, t2, p1, p2
+        finally:
+            cssutils.ser.prefs.useDefaults()
+
+    def judge(self, ctx, cssutils, sheet, witness, regions, kind):
+        """the oracle proper: fixpoint + equivalent DOM; a failure inside a known region is attributed to it"""
+        t1, t2, p1, p2 = self.roundtrip(cssutils, sheet)
+        fix_ok, dom_ok = t1 == t2, p1 == p2
+        ctx.count('oracle:%s:%s' % (kind, 'ok' if fix_ok and dom_ok else 'fails-in-known-region' if regions else 'FAILS'))
+        if fix_ok and dom_ok:
+            return True
+        known = sorted(regions)[0] if regions else None
+        detail = {'serialised': t1.decode('utf-8', 'replace')[:2000], 'reserialised': t2.decode('utf-8', 'replace')[:2000],
+                  'regions': sorted(regions)}
+        if not dom_ok:
+            for a, b in zip(p1, p2):
+                if a != b:
+                    detail['dom_first_difference'] = [repr(a)[:800], repr(b)[:800]]
+                    break
+            detail['dom_rule_counts'] = [len(p1), len(p2)]
+        ctx.violate(self.CLAUSE_FIX if not fix_ok else self.CLAUSE_DOM, witness, detail, known=known)
+        return False
+
+    def regions_of(self, cssutils, texts, raws=(), encoding='utf-8', ident_form='either', edit_texts=()):
+        regs = set()
+        for t in texts:
+            regs |= S.token_regions(cssutils, t, self.tk, encoding, ident_form)
+        for t in edit_texts:
+            regs |= S.token_regions(cssutils, t, self.tk, encoding, ident_form, base_depth=1)
+        for how, raw in raws:
+            cls = C.uri_class(raw) if how == 'uri' else (C.uri_class(raw) or C.str_class(raw))
+            if cls:
+                regs.add('C03-raw-backslash-setter' if cls in ('bshex', 'bsnl', 'trail') else S.kf_for_class(cls))
+            if S.bs_before_unencodable(raw, encoding):
+                regs.add('C03-backslash-before-unencodable')
+        return regs
+
+    def dom_regions(self, cssutils, sheet):
+        """regions that are a property of the edited DOM rather than of a token"""
+        regs = set()
+
+        def walk(rules):
+            for r in rules:
+                if r.type == S.RULE.IMPORT_RULE and r.media.mediaText.lstrip().startswith('('):
+                    # the @import grammar of the parser wants the media list to start with an identifier
+                    regs.add('C03-import-media-paren')
+                elif r.type == S.RULE.MEDIA_RULE:
+                    walk(r.cssRules)
+                elif r.type == S.RULE.PAGE_RULE:
+                    for m in r.cssRules:
+                        if any(isinstance(i.value, cssutils.css.CSSComment) for i in m.style.seq):
+                            # the parser drops comments inside margin rules, so only an edit can put one there
+                            regs.add('C03-margin-rule-comment')
+        walk(sheet.cssRules)
+        return regs
+
+    # -- corpus: minimised past failures / the witnesses of the findings, run first ----------------------
+    def oracle_corpus(self, ctx, cssutils):
+        import json
+        d = os.path.join(ctx.verif, 'tools', 'corpus', 'C03')
+        if not os.path.isdir(d):
+            return
+        for fn in sorted(os.listdir(d)):
+            if not fn.endswith('.json'):
+                continue
+            for entry in json.load(open(os.path.join(d, fn))):
+                src = entry['css']
+                sheet = self.parser.parseString(src)
+                regs = self.regions_of(cssutils, [src], encoding=sheet.encoding)
+                ctx.case(key=('corpus', src), nontrivial=True, kind='corpus')
+                ok = self.judge(ctx, cssutils, sheet, {'css': src, 'corpus': fn}, regs, 'corpus')
+                if entry.get('expect') == 'ok' and not ok and regs:
+                    # a corpus entry that used to round trip must not hide inside a region
+                    ctx.violate(self.CLAUSE_DOM, {'css': src, 'corpus': fn}, {'note': 'corpus entry expected to round trip'})
+
+    # -- (3) one content item in one slot: what is stored, what is written, does it survive -------------
+    SLOTS = {
+        'string': [
+            ('value', 'a{content:%s}', lambda sh: sh.cssRules[0].style.getProperty('content').propertyValue[0].value, 'strD',
+             lambda sh: sh.cssRules[0].style.getProperty('content').propertyValue.cssText, 'string', '%s'),
+            ('import', '@import %s;', lambda sh: sh.cssRules[0].href, 'strD',
+             lambda sh: sh.cssRules[0].cssText, 'string', '@import %s;'),
+            ('namespace', '@namespace p %s;', lambda sh: sh.cssRules[0].namespaceURI, 'strD',
+             lambda sh: sh.cssRules[0].cssText, 'string', '@namespace p %s;'),
+            ('attrib', 'a[b=%s]{c:d}', lambda sh: [i.value for i in sh.cssRules[0].selectorList[0].seq if i.type == 'STRING'][0],
+             'strD', lambda sh: sh.cssRules[0].selectorText, 'string', 'a[b=%s]'),
+        ],
+        'url': [
+            ('value', 'a{background:%s}', lambda sh: sh.cssRules[0].style.getProperty('background').propertyValue[0].uri, 'uriD',
+             lambda sh: sh.cssRules[0].style.getProperty('background').propertyValue.cssText, 'uri', '%s'),
+            ('import', '@import %s;', lambda sh: sh.cssRules[0].href, 'uriDTok',
+             lambda sh: sh.cssRules[0].cssText, 'uri', '@import %s;'),
+            ('namespace', '@namespace p %s;', lambda sh: sh.cssRules[0].namespaceURI, 'uriDTok',
+             lambda sh: sh.cssRules[0].cssText, 'string', '@namespace p %s;'),
+        ],
+        'ident': [
+            ('value', 'a{b:%s}', lambda sh: sh.cssRules[0].style.getProperty('b').propertyValue[0].value, 'tokval o', None, None, None),
+            ('class', '.%s{b:c}', lambda sh: sh.cssRules[0].selectorList[0].seq[0].value[1:], 'tokval o', None, None, None),
+            ('id', '#%s{b:c}', lambda sh: sh.cssRules[0].selectorList[0].seq[0].value[1:], 'tokval o', None, None, None),
+            ('type', '%s{b:c}', lambda sh: sh.cssRules[0].selectorList[0].seq[0].value[1], 'tokval o', None, None, None),
+            ('propname', 'a{%s:c}', None, None, None, None, None),
+            ('fnarg', 'a{b:f(%s)}', None, None, None, None, None),
+            ('unit', 'a{b:1%s}', None, None, None, None, None),
+            ('function', 'a{b:%s(1)}', None, None, None, None, None),
+            ('prefix', '@namespace %s "u";%s|a{b:c}', None, None, None, None, None),
+            ('page', '@page %s{b:c}', None, None, None, None, None),
+            ('pseudo', 'a:%s{b:c}', None, None, None, None, None),
+            ('atkeyword', '@%s x;', None, None, None, None, None),
+            ('attrname', 'a[%s]{b:c}', None, None, None, None, None),
+            ('attrvalue', 'a[b=%s]{c:d}', None, None, None, None, None),
+            ('unknown', '@foo %s;', None, None, None, None, None),
+        ],
+        'comment': [
+            ('top', '%s a{b:c}', lambda sh: sh.cssRules[0].cssText, 'tokval o', None, None, None),
+            ('block', 'a{%s b:c}', None, None, None, None, None),
+            ('blockend', 'a{b:c;%s}', None, None, None, None, None),
+            ('value', 'a{b:c %s d}', None, None, None, None, None),
+            ('selector', 'a %s b{c:d}', None, None, None, None, None),
+            ('media', '@media all{%s a{b:c}}', None, None, None, None, None),
+            ('import', '@import "x" %s;', None, None, None, None, None),
+        ],
+    }
+
+    # how the identifier of a slot is written back: as stored, or in normalised form (helper.normalize)
+    IDENT_FORM = {'value': 'verbatim', 'class': 'verbatim', 'id': 'verbatim', 'type': 'verbatim', 'attrname': 'verbatim',
+                  'attrvalue': 'verbatim', 'page': 'verbatim', 'prefix': 'verbatim', 'unknown': 'verbatim',
+                  'fnarg': 'verbatim', 'unit': 'normalized', 'function': 'normalized', 'pseudo': 'normalized',
+                  'atkeyword': 'normalized', 'varname': 'normalized', 'propname': 'either'}
+
+    def gen_item(self, rng, kind):
+        if kind == 'string':
+            q, body = C.string_token(rng, rng.choice([3, 7]))
+            return q + body + q
+        if kind == 'url':
+            if rng.random() < 0.5:
+                return 'url(' + rng.choice(['', ' ']) + C.url_unquoted_body(rng, 5) + rng.choice(['', ' ']) + ')'
+            q, body = C.string_token(rng, 5)
+            return 'url(' + rng.choice(['', ' ']) + q + body + q + rng.choice(['', '\t']) + ')'
+        if kind == 'ident':
+            return C.ident_text(rng, 4)
+        return C.comment_text(rng, 6)
+
+    def slots(self, ctx, cssutils, rng):
+        from cssutils import helper
+        lines, todo = [], []
+        per = ctx.n(450, 9000)
+        for kind, slots in self.SLOTS.items():
+            for _ in range(per):
+                item = self.gen_item(rng, kind)
+                slot = rng.choice(slots)
+                name, tmpl, get_stored, model_op, get_written, written_by, wtmpl = slot
+                src = tmpl.replace('%s', item)
+                if kind != 'comment':
+                    toks = list(self.tk.tokenize(item))
+                    if len(toks) != 1 or toks[0][0] != {'string': 'STRING', 'url': 'URI', 'ident': 'IDENT'}[kind]:
+                        ctx.count('slot:%s:generated-text-is-not-one-token' % kind)
+                        continue
+                with time_limit(30):
+                    sheet = self.parser.parseString(src)
+                regs = self.regions_of(cssutils, [src], encoding=sheet.encoding,
+                                       ident_form=self.IDENT_FORM.get(name, 'either') if kind == 'ident' else 'either')
+                nontriv = '\\' in item or not item.isascii()
+                ctx.case(key=('slot', kind, name, item), nontrivial=nontriv, kind='slot:%s:%s' % (kind, name),
+                         sample={'css': src, 'serialised': sheet.cssText.decode('utf-8', 'replace')})
+                self.judge(ctx, cssutils, sheet, {'css': src, 'slot': '%s/%s' % (kind, name), 'content': item}, regs,
+                           'slot-' + kind)
+                # correspondence: stored value and written text, model vs DOM
+                if get_stored is None or not ctx.model_ok:
+                    continue
+                try:
+                    stored = get_stored(sheet)
+                except (IndexError, AttributeError, TypeError):
+                    ctx.count('slot:%s:%s:not-stored' % (kind, name))
+                    continue
+                if stored is None:
+                    ctx.count('slot:%s:%s:not-stored' % (kind, name))
+                    continue
+                lines.append('%s %s' % (model_op, enc(item)))
+                todo.append(('stored', kind, name, item, stored))
+                if get_written is not None:
+                    lines.append('%s %s' % (written_by, enc(stored)))
+                    todo.append(('written', kind, name, (item, wtmpl), get_written(sheet)))
+        out = ctx.driver(lines) if lines else []
+        for (what, kind, name, item, impl), m in zip(todo, out):
+            if what == 'stored':
+                want = m[3:] if m.startswith('OK ') else m
+                if want != enc(impl):
+                    ctx.disagree('value stored in the DOM for a %s token (%s slot)' % (kind, name), item, impl,
+                                 dec_opt(m))
+            else:
+                item, wtmpl = item
+                want = wtmpl.replace('%s', dec(m))
+                if want != impl:
+                    ctx.disagree('text written by the serializer for a stored %s (%s slot)' % (kind, name), item, impl, want)
+
+    # -- generated sheets of all rule kinds, DOM edits, set-back per node type -------------------------
+    def oracle_composite(self, ctx, cssutils, rng):
+        import xml.dom
+        n = ctx.n(260, 6000)
+        for i in range(n):
+            risk = rng.choice([0.0, 0.0, 0.02, 0.05])
+            gen = S.Gen(rng, S.Content(rng, risk))
+            src = gen.sheet(rng.randint(2, 6))
+            with time_limit(60):
+                try:
+                    sheet = self.parser.parseString(src)
+                except xml.dom.DOMException:
+                    ctx.count('composite:parse-raised')
+                    continue
+            texts, raws, ops, etexts = [src], [], [], []
+            for _ in range(rng.choice([0, 0, 1, 3, 6])):
+                with time_limit(60):
+                    r = S.random_edit(cssutils, rng, sheet, gen)
+                if r is None:
+                    ctx.count('edit:rejected-or-n/a')
+                    continue
+                ops.append(r[0])
+                etexts += r[1]
+                raws += r[2]
+                ctx.count('edit:' + r[0])
+            regs = self.regions_of(cssutils, texts, raws, encoding=sheet.encoding, edit_texts=etexts)
+            regs |= self.dom_regions(cssutils, sheet)
+            kinds = sorted({r.type for r in sheet.cssRules})
+            ctx.case(key=('sheet', src, tuple(ops)), nontrivial=len(kinds) > 1 or bool(ops), kind='sheet:edits=%d' % len(ops),
+                     sample={'css': src[:400], 'edits': ops})
+            witness = {'css': src, 'edits': [list(x) for x in zip(ops, [])] or ops, 'seed_note': 'composite #%d' % i}
+            if ops:
+                witness = {'css': src, 'edits_applied': ops, 'serialised_after_edits': sheet.cssText.decode('utf-8', 'replace')}
+            ok = self.judge(ctx, cssutils, sheet, witness, regs, 'sheet')
+            if ok or not regs:
+                self.setback(ctx, cssutils, sheet, regs, witness)
+
+    def setback(self, ctx, cssutils, sheet, regs, witness):
+        """every serialisable node type, read and set back on a fresh object of its own"""
+        import xml.dom
+        css = cssutils.css
+        known = sorted(regs)[0] if regs else None
+        if any(r.type == S.RULE.VARIABLES_RULE for r in sheet.cssRules):
+            ctx.count('setback:skipped (sheet has @variables: node texts depend on the variables rule)')
+            return
+
+        def check(kind, text, make, read, **extra):
+            ctx.count('setback:' + kind)
+            try:
+                with time_limit(30):
+                    obj = make(text)
+                    back = read(obj)
+            except xml.dom.DOMException as e:
+                back = 'raised ' + type(e).__name__
+            if back != text:
+                ctx.violate('a %s whose text is read and set back on its own gives the same text' % kind,
+                            dict(witness, node=kind, text=text), {'got': back}, known=known)
+
+        cls = {S.RULE.STYLE_RULE: css.CSSStyleRule, S.RULE.MEDIA_RULE: css.CSSMediaRule, S.RULE.PAGE_RULE: css.CSSPageRule,
+               S.RULE.FONT_FACE_RULE: css.CSSFontFaceRule, S.RULE.IMPORT_RULE: css.CSSImportRule,
+               S.RULE.COMMENT: css.CSSComment, S.RULE.UNKNOWN_RULE: css.CSSUnknownRule,
+               S.RULE.CHARSET_RULE: css.CSSCharsetRule}
+        nsmap = dict((p, u) for p, u in sheet.namespaces.items())
+        for r in sheet.cssRules:
+            text = r.cssText
+            if not text:
+                continue
+            uses_ns = r.type in (S.RULE.STYLE_RULE, S.RULE.MEDIA_RULE) and '|' in text
+            if r.type in cls and not uses_ns:
+                def make(t, k=cls[r.type]):
+                    o = k()
+                    o.cssText = t
+                    return o
+                check('rule:' + r.typeString, text, make, lambda o: o.cssText)
+            if r.type == S.RULE.STYLE_RULE:
+                st = r.style.cssText
+
+                def mk_style(t):
+                    o = css.CSSStyleDeclaration()
+                    o.cssText = t
+                    return o
+                check('style declaration', st, mk_style, lambda o: o.cssText)
+                for sel in r.selectorList:
+                    stext = sel.selectorText
+
+                    def mk_sel(t):
+                        return css.Selector((t, nsmap)) if nsmap else css.Selector(t)
+                    check('selector', stext, mk_sel, lambda o: o.selectorText)
+                for prop in r.style.getProperties(all=True):
+                    if not prop.wellformed:
+                        continue
+                    vt = prop.propertyValue.cssText
+
+                    def mk_pv(t):
+                        return css.PropertyValue(t)
+                    check('property value', vt, mk_pv, lambda o: o.cssText)
+            if r.type in (S.RULE.MEDIA_RULE, S.RULE.IMPORT_RULE):
+                mt = r.media.mediaText
+
+                def mk_ml(t):
+                    o = cssutils.stylesheets.MediaList()
+                    o.mediaText = t
+                    return o
+                check('media list', mt, mk_ml, lambda o: o.mediaText)
+
+    # -- the sheets shipped with the repository -----------------------------------------------------------
+    def oracle_shipped(self, ctx, cssutils):
+        import glob
+        files = []
+        for base in ('sheets', os.path.join('cssutils', 'tests', 'sheets')):
+            for pat in ('*.css', os.path.join('*', '*.css')):
+                files += sorted(glob.glob(os.path.join(ctx.repo, base, pat)))
+        ctx.notes['shipped_sheets'] = len(files)
+        for f in files:
+            data = open(f, 'rb').read()
+            rel = os.path.relpath(f, ctx.repo)
+            try:
+                with time_limit(120):
+                    sheet = self.parser.parseString(data, href='file://' + f)
+            except UnicodeDecodeError:
+                ctx.count('shipped:undecodable')   # tests/sheets/test.css is deliberately mis-encoded
+                continue
+            try:
+                text = sheet.cssText.decode(sheet.encoding, 'replace')
+            except LookupError:
+                text = sheet.cssText.decode('utf-8', 'replace')
+            regs = self.regions_of(cssutils, [data.decode(sheet.encoding, 'replace')], encoding=sheet.encoding)
+            ctx.case(key=('shipped', rel), nontrivial=True, kind='shipped')
+            self.judge(ctx, cssutils, sheet, {'file': rel}, regs, 'shipped')
+
     # ------------------------------------------------------------------------------------------
+    def known(self, ctx, finding):
+        """replay the witness of a known finding on the implementation: does it still fail?"""
+        cssutils = quiet()
+        S.init(cssutils)
+        self.parser = cssutils.CSSParser(fetcher=lambda url: (None, ''))
+        try:
+            w = finding['witness']['data']
+            sheet = self.parser.parseString(w['css'])
+            for ed in w.get('setters', []):
+                obj = sheet.cssRules[ed['rule']]
+                setattr(obj, ed['attr'], ed['value'])
+            t1, t2, p1, p2 = self.roundtrip(cssutils, sheet)
+            return not (t1 == t2 and p1 == p2)
+        finally:
+            cssutils.ser.prefs.useDefaults()
+
     def replay(self, ctx, data):
-        self.run(ctx)
+        cssutils = quiet()
+        S.init(cssutils)
+        self.parser = cssutils.CSSParser(fetcher=lambda url: (None, ''))
+        from cssutils import tokenize2
+        self.tk = tokenize2.Tokenizer()
+        w = data.get('witness') or {}
+        try:
+            if data.get('kind') == 'impl-violates' and 'css' in w and 'edits_applied' not in w and 'node' not in w:
+                sheet = self.parser.parseString(w['css'])
+                regs = self.regions_of(cssutils, [w['css']], encoding=sheet.encoding)
+                self.judge(ctx, cssutils, sheet, w, regs, 'replay')
+            elif data.get('kind') == 'impl-violates' and 'file' in w:
+                f = os.path.join(ctx.repo, w['file'])
+                sheet = self.parser.parseString(open(f, 'rb').read(), href='file://' + f)
+                self.judge(ctx, cssutils, sheet, w, set(), 'replay')
+            elif data.get('kind') == 'impl-violates' and 'serialised_after_edits' in w:
+                sheet = self.parser.parseString(w['serialised_after_edits'])
+                self.judge(ctx, cssutils, sheet, w, set(), 'replay')
+            else:
+                self.run(ctx)
+        finally:
+            cssutils.ser.prefs.useDefaults()
 
 
 def dec_opt(s):
